@@ -295,25 +295,30 @@ namespace detail
 	template<typename genIUType>
 	GLM_FUNC_QUALIFIER genIUType bitfieldFillOne(genIUType Value, int FirstBit, int BitCount)
 	{
-		return Value | static_cast<genIUType>(mask(BitCount) << FirstBit);
+		// the mask is built in the (unsigned) element type: an int mask cannot hold more than 31 bits
+		typedef typename detail::make_unsigned<genIUType>::type UType;
+		return BitCount <= 0 ? Value : Value | static_cast<genIUType>(mask(static_cast<UType>(BitCount)) << FirstBit);
 	}
 
 	template<length_t L, typename T, qualifier Q>
 	GLM_FUNC_QUALIFIER vec<L, T, Q> bitfieldFillOne(vec<L, T, Q> const& Value, int FirstBit, int BitCount)
 	{
-		return Value | static_cast<T>(mask(BitCount) << FirstBit);
+		typedef typename detail::make_unsigned<T>::type UType;
+		return BitCount <= 0 ? Value : Value | static_cast<T>(mask(static_cast<UType>(BitCount)) << FirstBit);
 	}
 
 	template<typename genIUType>
 	GLM_FUNC_QUALIFIER genIUType bitfieldFillZero(genIUType Value, int FirstBit, int BitCount)
 	{
-		return Value & static_cast<genIUType>(~(mask(BitCount) << FirstBit));
+		typedef typename detail::make_unsigned<genIUType>::type UType;
+		return BitCount <= 0 ? Value : Value & static_cast<genIUType>(~(mask(static_cast<UType>(BitCount)) << FirstBit));
 	}
 
 	template<length_t L, typename T, qualifier Q>
 	GLM_FUNC_QUALIFIER vec<L, T, Q> bitfieldFillZero(vec<L, T, Q> const& Value, int FirstBit, int BitCount)
 	{
-		return Value & static_cast<T>(~(mask(BitCount) << FirstBit));
+		typedef typename detail::make_unsigned<T>::type UType;
+		return BitCount <= 0 ? Value : Value & static_cast<T>(~(mask(static_cast<UType>(BitCount)) << FirstBit));
 	}
 
 	GLM_FUNC_QUALIFIER int16 bitfieldInterleave(int8 x, int8 y)
